@@ -304,6 +304,13 @@ func compareFold(c *run.C, t reflect.Type, v reflect.Value, want val.V, m *mon.M
 		c.Violationf("mismatch", "fold:not-one-value", "Fold did not emit exactly one well-formed value (%v, %d values)\ntype=%s\nvalue=%s\nevents=%s", verr, len(got), t, valueString(v), m.Events)
 		return false
 	}
+	if m.Violation != "" {
+		// an object that announces n members and reports another number of them
+		// (or a typed container holding another element kind) does not describe
+		// the value of the documented mapping, whatever its members are
+		c.Violationf("mismatch", "fold:malformed-description", "Fold's events do not describe one well-formed value: %s (at event %d)\ntype=%s\nvalue=%s\nmodel =%s\nevents=%s", m.Violation, m.ViolAt, t, valueString(v), want, m.Events)
+		return false
+	}
 	if d := val.Equal(want, got[0], val.NumExact); d != "" {
 		c.Violationf("mismatch", "fold:value:"+mismatchClass(d), "Fold emits another value than the documented mapping: %s\ntype=%s\nvalue=%s\nmodel =%s\nevents=%s", d, t, valueString(v), want, m.Events)
 		return false
